@@ -106,6 +106,58 @@ theorem remainder_multiple (fmod : α → α → α) (h : FmodSpec fmod) (p : α
   obtain ⟨k, hk⟩ := remainder_congruent fmod h (n * p) p hp
   exact unique_rep p _ 0 hp (remainder_range fmod h _ p hp) ⟨le_refl 0, hp⟩ (n - k) (by rw [hk]; push_cast; ring)
 
+/-- a general congruence form: any two arguments that differ by an integer number of periods are mapped to the same
+inner argument -/
+theorem remainder_eq_of_congruent (fmod : α → α → α) (h : FmodSpec fmod) (x y p : α) (hp : 0 < p) (n : ℤ)
+    (hxy : x = y + n * p) : remainder fmod x p = remainder fmod y p := by
+  obtain ⟨k, hk⟩ := remainder_congruent fmod h y p hp
+  obtain ⟨k', hk'⟩ := remainder_congruent fmod h x p hp
+  exact unique_rep p _ _ hp (remainder_range fmod h x p hp) (remainder_range fmod h y p hp) (n - k' + k)
+    (by rw [hk, hk', hxy]; push_cast; ring)
+
+/-- per-axis inner argument of the 2-D/3-D wrappers: identity for a zero period, the `[0,p)` image otherwise -/
+theorem remainder_axis (fmod : α → α → α) (h : FmodSpec fmod) (x p : α) (hp : 0 ≤ p) :
+    (p = 0 ∧ remainder fmod x p = x) ∨ (0 < p ∧ 0 ≤ remainder fmod x p ∧ remainder fmod x p < p) := by
+  rcases hp.lt_or_eq with hlt | heq
+  · exact Or.inr ⟨hlt, remainder_range fmod h x p hlt⟩
+  · exact Or.inl ⟨heq.symm, by rw [← heq]; simp [remainder]⟩
+
+/-- 2-D periodic extension: independent shifts by whole periods on each periodic axis leave the value unchanged -/
+theorem periodic2_shift (fmod : α → α → α) (h : FmodSpec fmod) {β : Type} (f : α → α → β) (x y px py : α)
+    (hpx : 0 < px) (hpy : 0 < py) (n m : ℤ) :
+    periodic2 fmod f px py (x + n * px) (y + m * py) = periodic2 fmod f px py x y := by
+  unfold periodic2
+  rw [remainder_eq_of_congruent fmod h (x + n * px) x px hpx n rfl,
+      remainder_eq_of_congruent fmod h (y + m * py) y py hpy m rfl]
+
+/-- … and an axis with period 0 is passed through untouched while the other one is still periodic -/
+theorem periodic2_mixed (fmod : α → α → α) (h : FmodSpec fmod) {β : Type} (f : α → α → β) (x y px : α)
+    (hpx : 0 < px) (n : ℤ) :
+    periodic2 fmod f px 0 (x + n * px) y = f (remainder fmod x px) y := by
+  unfold periodic2
+  rw [remainder_eq_of_congruent fmod h (x + n * px) x px hpx n rfl]
+  simp [remainder]
+
+/-- 3-D periodic extension, all three axes -/
+theorem periodic3_shift (fmod : α → α → α) (h : FmodSpec fmod) {β : Type} (f : α → α → α → β)
+    (x y z px py pz : α) (hpx : 0 < px) (hpy : 0 < py) (hpz : 0 < pz) (n m k : ℤ) :
+    periodic3 fmod f px py pz (x + n * px) (y + m * py) (z + k * pz) = periodic3 fmod f px py pz x y z := by
+  unfold periodic3
+  rw [remainder_eq_of_congruent fmod h (x + n * px) x px hpx n rfl,
+      remainder_eq_of_congruent fmod h (y + m * py) y py hpy m rfl,
+      remainder_eq_of_congruent fmod h (z + k * pz) z pz hpz k rfl]
+
+/-- on the base cell the 3-D wrapper is the wrapped function -/
+theorem periodic3_on_base (fmod : α → α → α) (h : FmodSpec fmod) {β : Type} (f : α → α → α → β)
+    (x y z px py pz : α) (hpx : 0 < px) (hpy : 0 < py) (hpz : 0 < pz)
+    (hx : 0 ≤ x ∧ x < px) (hy : 0 ≤ y ∧ y < py) (hz : 0 ≤ z ∧ z < pz) :
+    periodic3 fmod f px py pz x y z = f x y z := by
+  unfold periodic3
+  have e1 : remainder fmod x px = x := periodic_on_base fmod h (fun t => t) x px hpx hx
+  have e2 : remainder fmod y py = y := periodic_on_base fmod h (fun t => t) y py hpy hy
+  have e3 : remainder fmod z pz = z := periodic_on_base fmod h (fun t => t) z pz hpz hz
+  rw [e1, e2, e3]
+
 /-- a zero period switches periodicity off for that axis (2-D/3-D wrappers) -/
 theorem remainder_zero_period (fmod : α → α → α) (x : α) : remainder fmod x 0 = x := by
   simp [remainder]
@@ -181,6 +233,31 @@ theorem rotateZ_norm (c s : α) (h : c * c + s * s = 1) (v : α × α × α) :
   have : (c * a + -s * b + 0 * d) * (c * a + -s * b + 0 * d) + (s * a + c * b + 0 * d) * (s * a + c * b + 0 * d)
       = (c * c + s * s) * (a * a + b * b) := by ring
   rw [this, h]; ring
+
+/-- rotations about z compose by angle addition (cos/sin addition formulas as hypotheses-free algebra) -/
+theorem rotateZ_comp (c1 s1 c2 s2 : α) (v : α × α × α) :
+    rotateZ c1 s1 (rotateZ c2 s2 v) = rotateZ (c1 * c2 - s1 * s2) (s1 * c2 + c1 * s2) v := by
+  obtain ⟨a, b, d⟩ := v
+  simp only [rotateZ, Prod.mk.injEq]
+  refine ⟨by ring, by ring, by ring⟩
+
+/-- the rotation by the opposite angle undoes it (for a unit (c, s)) -/
+theorem rotateZ_inverse (c s : α) (h : c * c + s * s = 1) (v : α × α × α) :
+    rotateZ c (-s) (rotateZ c s v) = v := by
+  obtain ⟨a, b, d⟩ := v
+  simp only [rotateZ, Prod.mk.injEq]
+  refine ⟨?_, ?_, by ring⟩
+  · have : c * (c * a + -s * b + 0 * d) + - -s * (s * a + c * b + 0 * d) + 0 * (0 * a + 0 * b + 1 * d) = (c * c + s * s) * a := by ring
+    rw [this, h, one_mul]
+  · have : -s * (c * a + -s * b + 0 * d) + c * (s * a + c * b + 0 * d) + 0 * (0 * a + 0 * b + 1 * d) = (c * c + s * s) * b := by ring
+    rw [this, h, one_mul]
+
+/-- the z component is never touched, and the identity rotation is the identity -/
+theorem rotateZ_z (c s : α) (v : α × α × α) : (rotateZ c s v).2.2 = v.2.2 := by
+  obtain ⟨a, b, d⟩ := v; simp [rotateZ]
+
+theorem rotateZ_id (v : α × α × α) : rotateZ 1 0 v = v := by
+  obtain ⟨a, b, d⟩ := v; simp [rotateZ]
 
 theorem rotateZ_radial (c s : α) : rotateZ c s (1, 0, 0) = (c, s, 0) := by
   simp [rotateZ]
